@@ -93,3 +93,13 @@ Theorem C01_unroll_loop : forall i body lo n par st st',
   exec_list (unrolled i body lo n) st = Ok st'.
 Proof. exact rule_unroll_loop. Qed.
 Print Assumptions C01_unroll_loop.
+
+(** lift_scope (if out of for): sound when the guard depends only on variables other than the iterator.  A guard
+    reading configuration state is NOT covered — and the implementation accepts exactly such guards even when
+    the body writes the field (known finding C01-lift_scope-config-guard). *)
+Theorem C01_lift_if_out_of_for : forall i lo hi c a par st st' bc,
+  env_only c = true -> mentions i c = false -> eval st c = Ok (VBool bc) ->
+  exec_list [For i lo hi [If c a []] par] st = Ok st' ->
+  exec_list [If c [For i lo hi a par] []] st = Ok st'.
+Proof. exact rule_lift_if_out_of_for. Qed.
+Print Assumptions C01_lift_if_out_of_for.
